@@ -110,7 +110,9 @@ def fixed_corpus(u):
     # nocopy
     add('nocopy', Struct('NoCopy', [Field(1, ('string',), nocopy=True), Field(2, ('binary',), nocopy=True),
                                     Field(3, ('string',)), Field(4, ('binary',), 'optional'),
-                                    Field(5, ('ptr', ('string',)), 'optional', nocopy=True)]))
+                                    Field(5, ('ptr', ('string',)), 'optional', nocopy=True),
+                                    Field(6, ('ptr', ('binary',)), 'optional', nocopy=True),
+                                    Field(7, ('ptr', ('binary',)), 'optional')]))
     spellings(u, add)
     invalid_defs(u, add)
     poison_defs(u, add)
@@ -295,6 +297,13 @@ def poison_defs(u, add):
     bad('PQ', [fld(1, 'PA'), Field(2, ('i32',))])
     bad('PX', [fld(1, 'PY'), fld(2, 'PCBad')])
     bad('PY', [fld(1, 'PX')])
+    # valid types next to an invalid one: a failed registration of POuter must not leave PInner behind
+    add('poison-valid', Struct('PLeafV', [Field(1, ('i32',))]))
+    add('poison-valid', Struct('PInner', [Field(1, ('ptr', ('struct', 'PLeafV')), 'optional'), Field(2, ('i32',))]))
+    add('poison-valid', Struct('POther', [Field(1, ('ptr', ('struct', 'PInner')), 'optional')]))
+    pin = u.by_name['PInner']
+    bad('POuter', [Field(1, None, go_text='*PInner', model_text='(ptr (struct %d PInner))' % pin.sid, tag='frugal:"1,optional,PInner"'),
+                   fld(2, 'PCBad')])
     bad('PZ', [Field(1, None, go_text='[]*PY', model_text='(slice (ptr (struct %d PY)))' % sid['PY'], tag='frugal:"1,default,list<PY>"')])
 
 
